@@ -99,6 +99,26 @@ Proof.
   destruct o; try contradiction; rewrite Hl; reflexivity.
 Qed.
 
+Lemma st_discm pc rf lv stk o nm : fetch im pc = Some (I1 OC_DISCM (PLoopVar LV_FIRST)) -> rf_get rf R_OPERAND = Some (VOperand o) ->
+  rf_get rf R_DISC_FORWARD = Some (VBool false) -> lv_get lv LV_FIRST = Some nm -> (o = OD_GROUP \/ o = OD_LOCATION) ->
+  esteps 1 im (mk s0 pc rf lv d r stk) =
+  Some (mk s0 (pc + 1) (rf_set rf R_RESULT (match set_members o (m_world s0) nm with Some l => or_null (last_name l) | None => VOperand OD_NULL end)) lv d r stk, []).
+Proof.
+  intros Hf Ho Hd Hn Hok. apply (estep1 im (mk s0 pc rf lv d r stk) _ _ _ Hf). cbn [Machine.exec i_op i_p0 I1].
+  unfold set_by_oper, disc_fwd, reg, get_reg. cbn [mk m_regs m_world m_frames param_to_value get_loopvar bind]. rewrite Hn, Ho, Hd. cbn [truthy bind lift].
+  unfold set_members, as_name. destruct nm; destruct Hok as [-> | ->]; reflexivity.
+Qed.
+
+Lemma st_dnextm pc rf lv stk o nm l c : fetch im pc = Some (I2 OC_DNEXTM (PLoopVar LV_FIRST) (PLoopVar LV_CURRENT)) ->
+  rf_get rf R_OPERAND = Some (VOperand o) -> rf_get rf R_DISC_FORWARD = Some (VBool false) ->
+  lv_get lv LV_CURRENT = Some (VStr c) -> lv_get lv LV_FIRST = Some nm -> set_members o (m_world s0) nm = Some l -> (o = OD_GROUP \/ o = OD_LOCATION) ->
+  esteps 1 im (mk s0 pc rf lv d r stk) = Some (mk s0 (pc + 1) (rf_set rf R_RESULT (or_null (sl_prev l c))) lv d r stk, []).
+Proof.
+  intros Hf Ho Hd Hc Hn Hl Hok. apply (estep1 im (mk s0 pc rf lv d r stk) _ _ _ Hf). cbn [Machine.exec i_op i_p0 i_p1 I2].
+  unfold set_by_oper, disc_fwd, reg, get_reg. cbn [mk m_regs m_world m_frames param_to_value get_loopvar bind]. rewrite Hn, Hc, Ho, Hd. cbn [truthy bind lift].
+  unfold set_members, as_name in Hl. destruct nm; try discriminate. destruct Hok as [-> | ->]; rewrite Hl; reflexivity.
+Qed.
+
 End Steps.
 
 Lemma last_name_in t n : last_name t = Some n -> In n t.
@@ -124,11 +144,15 @@ Variable test_src : param.
 Variable l : list string.
 Variable base : list value.
 Variable P : Z.
+Variable inext : instr.
 Hypothesis Hsim0 : sim ss s0.
 Hypothesis Hfr0 : m_frames s0 = FLoop lv0 d :: r.
-Hypothesis Hnames : names_of o (m_world s0) = l.
-Hypothesis Hscan : scannable o.
 Hypothesis Hsorted : StronglySorted str_lt l.
+(* the step to the name before the current one: DNEXT for all lights / groups / locations, DNEXTM for the members of a set *)
+Hypothesis Hnext : forall pc rf lv stk c, fetch im pc = Some inext ->
+  rf_get rf R_OPERAND = Some (VOperand o) -> rf_get rf R_DISC_FORWARD = Some (VBool false) ->
+  lv_get lv LV_CURRENT = Some (VStr c) -> lv_get lv LV_FIRST = lv_get lv0 LV_FIRST -> In c l ->
+  esteps 1 im (mk s0 pc rf lv d r stk) = Some (mk s0 (pc + 1) (rf_set rf R_RESULT (or_null (sl_prev l c))) lv d r stk, []).
 Hypothesis Htest : test_src = PLoopVar LV_CURRENT \/ test_src = PReg R_RESULT.
 Hypothesis Hf0 : fetch im P = Some (I2 OC_MOVE (PReg R_RESULT) (PLoopVar LV_CURRENT)).
 Hypothesis Hc1 : code_at im (P + 1) (test_op OP_NOTEQ test_src (POperand OD_NULL)).
@@ -136,7 +160,7 @@ Hypothesis Hf5 : fetch im (P + 5) = Some (jump JC_IF_FALSE (7 + 2)).
 Hypothesis Hc6 : code_at im (P + 6) (op_equals OP_ADD (PLoopVar LV_COUNTER) (PInt 1)).
 Hypothesis Hf10 : fetch im (P + 10) = Some (I1 OC_PUSH (PLoopVar LV_CURRENT)).
 Hypothesis Hf11 : fetch im (P + 11) = Some (I2 OC_MOVEQ (POperand o) (PReg R_OPERAND)).
-Hypothesis Hf12 : fetch im (P + 12) = Some (I1 OC_DNEXT (PLoopVar LV_CURRENT)).
+Hypothesis Hf12 : fetch im (P + 12) = Some inext.
 Hypothesis Hf13 : fetch im (P + 13) = Some (jump JC_ALWAYS (- (5 + 1 + 7))).
 
 Lemma disc_of rf : same_but_scratch rf (m_regs s0) -> rf_get rf R_DISC_FORWARD = Some (VBool false).
@@ -144,12 +168,12 @@ Proof. intros H. rewrite (H R_DISC_FORWARD eq_refl). exact (sim_disc _ _ Hsim0).
 
 Lemma scan_loop : forall todo done rf lv k,
   l = todo ++ done -> same_but_scratch rf (m_regs s0) -> rf_get rf R_RESULT = Some (name_or_null (last_name todo)) ->
-  lv_get lv LV_COUNTER = Some (VInt k) ->
+  lv_get lv LV_COUNTER = Some (VInt k) -> lv_get lv LV_FIRST = lv_get lv0 LV_FIRST ->
   exists n rf' lv', esteps n im (mk s0 P rf lv d r (map VStr done ++ base)) = Some (mk s0 (P + 14) rf' lv' d r (map VStr l ++ base), []) /\
                     same_but_scratch rf' (m_regs s0) /\ lv_get lv' LV_COUNTER = Some (VInt (k + Z.of_nat (length todo))) /\
-                    lv_get lv' LV_INCR = lv_get lv LV_INCR.
+                    lv_get lv' LV_INCR = lv_get lv LV_INCR /\ lv_get lv' LV_FIRST = lv_get lv0 LV_FIRST.
 Proof.
-  induction todo as [|c t IH] using rev_ind; intros done rf lv k Hl Hsb Hres HlC.
+  induction todo as [|c t IH] using rev_ind; intros done rf lv k Hl Hsb Hres HlC HlF.
   - (* nothing left: the test fails, the scan is over *)
     cbn [app] in Hl. subst done. cbn [last_name map last name_or_null] in Hres.
     pose proof (st_move_result_lv im s0 d r P rf lv (map VStr l ++ base) LV_CURRENT _ Hf0 Hres) as E0.
@@ -169,7 +193,8 @@ Proof.
       eapply esteps_app; [exact E0|eapply esteps_app; [exact E1|]]. rewrite Ej. f_equal. f_equal. unfold S2, mk, with_pc. cbn [m_pc m_regs m_globals m_frames m_stack m_unnamed m_world]. f_equal. lia. }
     split; [apply sbs_set; [exact Hsb|reflexivity]|].
     split; [unfold lv1; rewrite lv_get_set_other by reflexivity; rewrite HlC; f_equal; f_equal; cbn [length]; lia|].
-    unfold lv1. rewrite lv_get_set_other by reflexivity. reflexivity.
+    split; [unfold lv1; rewrite lv_get_set_other by reflexivity; reflexivity|].
+    unfold lv1. rewrite lv_get_set_other by reflexivity. exact HlF.
   - (* the name c: count it, push it, step to the name before it *)
     rewrite <- app_assoc in Hl. cbn [app] in Hl. rewrite last_name_app in Hres. cbn [name_or_null] in Hres.
     pose proof (st_move_result_lv im s0 d r P rf lv (map VStr done ++ base) LV_CURRENT _ Hf0 Hres) as E0.
@@ -203,8 +228,10 @@ Proof.
     pose proof (st_moveq_reg im s0 d r _ rf1 lv2 (VStr c :: map VStr done ++ base) (POperand o) R_OPERAND (VOperand o) Hf11' eq_refl eq_refl) as E4.
     set (rf2 := rf_set rf1 R_OPERAND (VOperand o)) in *.
     assert (Hsb2 : same_but_scratch rf2 (m_regs s0)) by (apply sbs_set; [apply sbs_set; [exact Hsb|reflexivity]|reflexivity]).
-    assert (Hf12' : fetch im (P + 1 + 4 + 1 + 4 + 1 + 1) = Some (I1 OC_DNEXT (PLoopVar LV_CURRENT))) by (replace (P + 1 + 4 + 1 + 4 + 1 + 1) with (P + 12) by lia; exact Hf12).
-    pose proof (st_dnext im s0 d r _ rf2 lv2 (VStr c :: map VStr done ++ base) o l c Hf12' (rf_get_set_same _ _ _) (disc_of rf2 Hsb2) HlCur2 Hnames Hscan) as E5.
+    assert (Hf12' : fetch im (P + 1 + 4 + 1 + 4 + 1 + 1) = Some inext) by (replace (P + 1 + 4 + 1 + 4 + 1 + 1) with (P + 12) by lia; exact Hf12).
+    assert (HlF2 : lv_get lv2 LV_FIRST = lv_get lv0 LV_FIRST) by (unfold lv2, lv1; rewrite !lv_get_set_other by reflexivity; exact HlF).
+    assert (Hcl : In c l) by (rewrite Hl; apply in_or_app; right; left; reflexivity).
+    pose proof (Hnext _ rf2 lv2 (VStr c :: map VStr done ++ base) c Hf12' (rf_get_set_same _ _ _) (disc_of rf2 Hsb2) HlCur2 HlF2 Hcl) as E5.
     assert (Hprev : or_null (sl_prev l c) = name_or_null (last_name t)).
     { rewrite Hl, (sl_prev_split t c done) by (rewrite <- Hl; exact Hsorted). destruct (last_name t); reflexivity. }
     rewrite Hprev in E5. set (rf3 := rf_set rf2 R_RESULT (name_or_null (last_name t))) in *.
@@ -214,14 +241,14 @@ Proof.
     assert (Hback : with_pc S7 (m_pc S7 + - (5 + 1 + 7)) = mk s0 P rf3 lv2 d r (map VStr (c :: done) ++ base)).
     { unfold S7, mk, with_pc. cbn [m_pc m_regs m_globals m_frames m_stack m_unnamed m_world map app]. f_equal. lia. }
     rewrite Hback in E6.
-    destruct (IH (c :: done) rf3 lv2 (k + 1) Hl (sbs_set rf2 (m_regs s0) R_RESULT _ Hsb2 eq_refl) (rf_get_set_same _ _ _) (lv_get_set _ _ _)) as (n & rf' & lv' & En & Hsb' & HlC' & HlI').
+    destruct (IH (c :: done) rf3 lv2 (k + 1) Hl (sbs_set rf2 (m_regs s0) R_RESULT _ Hsb2 eq_refl) (rf_get_set_same _ _ _) (lv_get_set _ _ _) HlF2) as (n & rf' & lv' & En & Hsb' & HlC' & HlI' & HlF').
     exists (1 + (4 + (1 + (4 + (1 + (1 + (1 + (1 + n))))))))%nat, rf', lv'.
     split.
     { replace (@nil event) with (@nil event ++ (@nil event ++ (@nil event ++ (@nil event ++ (@nil event ++ (@nil event ++ (@nil event ++ (@nil event ++ @nil event)))))))) by reflexivity.
       eapply esteps_app; [exact E0|eapply esteps_app; [exact E1|eapply esteps_app; [exact Ej|eapply esteps_app; [exact E2|eapply esteps_app; [exact E3|
       eapply esteps_app; [exact E4|eapply esteps_app; [exact E5|eapply esteps_app; [exact E6|exact En]]]]]]]]. }
     split; [exact Hsb'|]. split; [rewrite HlC'; f_equal; f_equal; rewrite app_length; cbn [length]; lia|].
-    rewrite HlI'. unfold lv2, lv1. rewrite !lv_get_set_other by reflexivity. reflexivity.
+    split; [rewrite HlI'; unfold lv2, lv1; rewrite !lv_get_set_other by reflexivity; reflexivity|exact HlF'].
 Qed.
 
 End Scan.
